@@ -3,8 +3,9 @@
 //  * `update_seen` - one sampling pass: for each slot not yet seen at zero ONE SeqCst load of its reader counter, `seen` becomes
 //    `seen || load == 0`, a `true` is never taken back. Proved on the real body, complete (all inputs), by Kani: C18.STICKY,
 //    C01.U-STEP. `zero_seen[i]` (ghost) = "some load of slot i returned 0 during this barrier".
-//  * `AtomicUsize::fetch_add` on the generation: one flip; `flip_ok` records that it was SeqCst, by an odd amount, and that at
-//    most the initial sampling pass had happened before it.
+//  * `AtomicUsize::fetch_add` on the generation: one flip; `flip_ok` records that it was by an odd amount (new readers go to the
+//    other slot). Its memory ordering and the number of sampling passes before it are deliberately NOT part of the contract:
+//    the generation only picks a slot, safety does not depend on it (benign B2 relaxes the generation load).
 //  * `seen_zero.iter().all(|s| *s)` on the 2-element array is replaced (rewrite W3) by `verif_all(&seen_zero)` with the contract
 //    `r == (s[0] && s[1])`: the installed Verus accepts `Iterator::all` but gives it no specification (std semantics, assumed).
 //  * `thread::yield_now`, `atomic::spin_loop_hint`: no effect on the ghost state (they are the waiting C03 forbids inside a
@@ -17,7 +18,7 @@ impl AtomicUsize {
     #[verifier::external_body]
     pub fn fetch_add(&self, v: usize, o: Ordering, tr: &mut Ghost<BS>) -> (r: usize)
         ensures final(tr)@.flips == old(tr)@.flips + 1, final(tr)@.zero_seen == old(tr)@.zero_seen, final(tr)@.passes == old(tr)@.passes,
-            final(tr)@.flip_ok == (old(tr)@.passes <= 1 && o is SeqCst && v % 2 == 1)
+            final(tr)@.flip_ok == (v % 2 == 1)
     { unimplemented!() }
 }
 pub mod thread { use super::*; #[verifier::external_body] pub fn yield_now() { } }
